@@ -97,8 +97,14 @@ class Parser(object):
         t.lexer.lineno += 1 if t.value[-1:] in ('\n', '\r') else 0
 
     def t_error(self, t):
+        if len(self.errors) >= self.MAX_ERRORS:
+            """ one diagnostic per character of a text that is not a schema helps nobody (and costs a copy of the rest each time) """
+            t.lexer.skip(len(t.value))
+            return
         t.lexer.skip(1)
         self._parser_error("illegal character '{}'".format(t.value[0]), t.lexer.lineno, t.lexpos)
+
+    MAX_ERRORS = 100
 
     precedence = (
         ('left', '+', '-'),
@@ -139,7 +145,8 @@ class Parser(object):
 
     def _validate_struct_members(self, members):
         fieldnames = set()
-        for i, (member, line, pos) in enumerate(members):
+        earlier = {}
+        for member, line, pos in members:
             name = member.name
             self._parser_check(
                 name not in fieldnames,
@@ -163,7 +170,7 @@ class Parser(object):
                 line, pos
             )
             if member.bound:
-                bound, _, __ = next(six.ifilter(lambda m: m[0].name == member.bound, members[:i]), (None, None, None))
+                bound = earlier.get(member.bound)
                 if bound:
                     self._parser_check(self._is_type_sizer_compatible(bound.type_name),
                                        "Sizer of '{}' has to be of (unsigned) integer type".format(name),
@@ -174,6 +181,7 @@ class Parser(object):
                 else:
                     self._parser_error("Sizer of '{}' has to be defined before the array".format(name),
                                        line, pos)
+            earlier.setdefault(name, member)
 
         for member, line, pos in members[:-1]:
             self._parser_check(
